@@ -234,10 +234,37 @@ fn keep_going_cases(o: &mut Out, rng: &mut Rng, thorough: bool) {
     }
 }
 
+/// every sequence of up to 3 (4) frame-rectangle setters from a small alphabet on a 4x3 canvas: a setter that returns Ok must leave a rectangle inside the canvas
+fn setter_matrix_cases(o: &mut Out, thorough: bool) {
+    let alphabet: Vec<WOp> = vec![WOp::FrameDim(1, 1), WOp::FrameDim(1, 3), WOp::FrameDim(4, 1), WOp::FrameDim(2, 2), WOp::FrameDim(4, 3), WOp::FrameDim(3, 3), WOp::FrameDim(0, 1), WOp::FrameDim(5, 1),
+        WOp::FramePos(0, 1), WOp::FramePos(1, 0), WOp::FramePos(3, 2), WOp::FramePos(2, 1), WOp::FramePos(0, 3), WOp::FramePos(4, 0), WOp::ResetDim, WOp::ResetPos];
+    let n = alphabet.len();
+    let len = if thorough { 4 } else { 3 };
+    let cfg = WCfg { w: 4, h: 3, color: 0, depth: 8, animated: Some((2, 0)), sep: false, compression: 13, filter: 0, validate: false, palette: None };
+    let mut rng = Rng::new(7);
+    for code in 0..(n as u64).pow(len as u32) {
+        let mut ops: Vec<WOp> = vec![];
+        let mut c = code;
+        for _ in 0..len { ops.push(alphabet[(c % n as u64) as usize].clone()); c /= n as u64; }
+        o.mark(&format!("setters {:?}", ops));
+        let sink = Sink::new(0, None, false);
+        let run = run_writer(&cfg, &ops, sink.clone(), false, &mut rng);
+        o.direct_checks += 1;
+        if let Some(m) = &run.panicked {
+            o.violation(viol("writer-panicked", &format!("writer-panicked: {}", m.chars().take(50).collect::<String>()), vec![("config", jstr(&format!("{:?}", cfg))), ("ops", jstr(&format!("{:?}", ops))), ("why", jstr(m))]));
+        } else if let Some(why) = run.illegal_accepted.first() {
+            o.violation(viol("invalid-frame-parameter-accepted", "invalid-frame-parameter-accepted", vec![("config", jstr(&format!("{:?}", cfg))), ("ops", jstr(&format!("{:?}", ops))), ("why", jstr(why)), ("results", jstr(&run.results.join(" | ")))]));
+        }
+    }
+    o.count("setter-matrix");
+    o.distinct("setter-matrix");
+}
+
 pub fn run(a: &Args) {
     let mut o = Out::new(&a.out);
     let mut rng = Rng::new(a.seed);
     let thorough = a.tier == "thorough";
+    setter_matrix_cases(&mut o, thorough);
     retry_cases(&mut o, &mut rng, thorough);
     keep_going_cases(&mut o, &mut rng, thorough);
     for k in 0..(if thorough { 4000 } else { 260 }) {
